@@ -784,6 +784,10 @@ impl Compiler {
         // Push break context (switch uses the same break mechanism; `continue` skips it)
         self.push_switch();
 
+        // The case block is one block scope: a `let`/`const`/class declared in a clause lives
+        // until the switch statement ends (`break` unwinds to the depth recorded above)
+        self.emit_push_scope();
+
         // Collect case targets
         let mut case_jumps: Vec<super::JumpPlaceholder> = Vec::new();
         let mut default_jump: Option<super::JumpPlaceholder> = None;
@@ -846,6 +850,10 @@ impl Compiler {
         if let Some(jump) = jump_to_end {
             self.builder.patch_jump(jump);
         }
+
+        // Leave the case block's scope on normal completion (breaks have unwound it already
+        // and land after this instruction)
+        self.emit_pop_scope();
 
         // Pop loop context (patches break jumps)
         self.pop_loop();
